@@ -45,13 +45,17 @@ Shape(H, r) ==      \* actual record -> comparable set
   IF H.kind = "tot" THEN { <<r[i][1], r[i][2]>> : i \in DOMAIN r }
   ELSE IF H.raw THEN { <<r[i][1], r[i][2], r[i][3]>> : i \in DOMAIN r }
   ELSE { <<r[i][1], r[i][2]>> : i \in DOMAIN r }
-Project(H, rec) == IF H.kind = "tot" \/ H.raw THEN rec ELSE { <<x[1], x[2]>> : x \in rec }
+Project0(H, rec) == IF H.kind = "tot" \/ H.raw THEN rec ELSE { <<x[1], x[2]>> : x \in rec }
+\* wrapper probes (a second focus mark): the event also says whether it is the begin or the end of the pair
+TagOfKey(H, key) == LET F == FocusNode(H.sel) IN F.caps[CHOOSE i \in DOMAIN F.caps : F.caps[i].key = key].tag
+Project(H, x) == IF H.wrap /\ Len(x) = 3 THEN Project0(H, x[3]) \cup {<<"$wrap", TagOfKey(H, x[2])>>}
+                 ELSE Project0(H, x[Len(x)])
 \* expected: set of tagged records <<tag..., rec>> (rec last) ; chunk: sequence of actual records
 BagEq(H, exp, chunk) ==
-  LET erecs == { Project(H, x[Len(x)]) : x \in exp }
+  LET erecs == { Project(H, x) : x \in exp }
       arecs == { Shape(H, chunk[i].rec) : i \in DOMAIN chunk }
   IN /\ erecs = arecs
-     /\ \A r \in erecs : Cardinality({x \in exp : Project(H, x[Len(x)]) = r})
+     /\ \A r \in erecs : Cardinality({x \in exp : Project(H, x) = r})
                          = Cardinality({i \in DOMAIN chunk : Shape(H, chunk[i].rec) = r})
 
 \* ------------------------------------------------------------------ processing the sub-steps of one event
@@ -66,7 +70,7 @@ Consume(S, h, exp, clause, step) ==
       from == S.ptr[h] + 1
       chunk == IF from + n - 1 <= Len(act) THEN SubSeq(act, from, from + n - 1) ELSE <<>>
       ok == (from + n - 1 <= Len(act)) /\ BagEq(H, exp, chunk)
-  IN IF ok THEN [S EXCEPT !.ptr[h] = @ + n]
+  IN IF ok THEN [S EXCEPT !.ptr[h] = @ + n, !.at[h] = @ \o [k \in 1..n |-> S.si]]
      ELSE Fail(S, clause, step, h)      \* nothing consumed: what is left over is reported as Spurious
 
 \* intercept stage over handlers h..NH ; res = results of the last handler with a non-declining result
@@ -90,19 +94,34 @@ ObserveStage(S, step, b, h) ==
                 S2 == Consume(S, h, R, IF step.why = "falloff" THEN "FallOffValue" ELSE "Deliveries", step)
             IN ObserveStage(S2, step, b, h + 1)
 
+\* remove repeated values, keeping first occurrences (values of one trace are distinct script counters)
+RECURSIVE Dedup(_)
+Dedup(s) == IF s = <<>> THEN <<>>
+            ELSE LET r == Dedup(SubSeq(s, 1, Len(s) - 1)) IN
+                 IF \E i \in DOMAIN r : r[i] = s[Len(s)] THEN r ELSE Append(r, s[Len(s)])
 RECURSIVE TotalStage(_, _, _, _)
 TotalStage(S, step, a, h) ==
   IF h > NH THEN S
   ELSE LET H == T.handlers[h] IN
        IF H.kind # "tot" THEN TotalStage(S, step, a, h + 1)
        ELSE LET R == { <<0, r>> : r \in TotalRecs(S.A, H.sel, a) }
-                clause == IF TotalNested(S.A, H.sel, a) THEN "TotalRecordNested" ELSE "TotalRecord"
-            IN TotalStage(Consume(S, h, R, clause, step), step, a, h + 1)
+                S2 == Consume(S, h, R, "TotalRecord", step)
+                act == ActualOf(h)
+                nxt == S.ptr[h] + 1
+                \* named deviation TotalDupPerDepth: same record up to repeated values, only when an
+                \* intermediate selector level matches at two nesting depths
+                dup == /\ Len(S2.fails) > Len(S.fails) /\ R # {} /\ nxt <= Len(act)
+                       /\ TotalNested(S.A, H.sel, a)
+                       /\ { <<act[nxt].rec[i][1], Dedup(act[nxt].rec[i][2])>> : i \in DOMAIN act[nxt].rec }
+                          = (CHOOSE x \in R : TRUE)[2]
+                S3 == IF dup THEN [Fail(S, "TotalRecordNested", step, h) EXCEPT !.ptr[h] = @ + 1, !.at[h] = Append(@, S.si)] ELSE S2
+            IN TotalStage(S3, step, a, h + 1)
 
 RECURSIVE Run(_, _, _)
-Run(S, steps, i) ==
-  IF i > Len(steps) THEN S
-  ELSE LET step == steps[i] IN
+Run(S0, steps, i) ==
+  IF i > Len(steps) THEN S0
+  ELSE LET step == steps[i]
+           S == [S0 EXCEPT !.si = i] IN
     IF step.k = "exit"
     THEN LET a == Top(S.st)
              S2 == TotalStage(S, [var |-> "#close", why |-> ""], a, 1)
@@ -123,11 +142,24 @@ Run(S, steps, i) ==
 RECURSIVE Leftover(_, _)
 Leftover(S, h) ==
   IF h > NH THEN S
-  ELSE Leftover(IF S.ptr[h] = Len(ActualOf(h)) THEN S
+  ELSE Leftover(IF S.ptr[h] = Len(ActualOf(h)) \/ (\E k \in DOMAIN S.fails : S.fails[k].line = l /\ S.fails[k].h = h) THEN S
                 ELSE Fail(S, "Spurious", [var |-> "", why |-> IF lastfall THEN "afterfalloff" ELSE ""], h), h + 1)
 
+\* deliveries of one event, taken in their global order, must follow the order of the sub-steps that owe
+\* them (entry before variables before value / error before exit before the closing records)
+RECURSIVE OrderOK(_, _, _, _)
+OrderOK(S, k, cnt, last) ==
+  IF k > Len(E.dlv) THEN TRUE
+  ELSE LET h == E.dlv[k].h
+           c == cnt[h] + 1
+       IN IF c > Len(S.at[h]) THEN TRUE      \* unconsumed: already reported
+          ELSE S.at[h][c] >= last /\ OrderOK(S, k + 1, [cnt EXCEPT ![h] = c], S.at[h][c])
+CheckOrder(S) == IF OrderOK(S, 1, [h \in 1..NH |-> 0], 0) THEN S
+                 ELSE Fail(S, "Order", [var |-> "", why |-> ""], 0)
+
 Process(A, st, steps) ==
-  Leftover(Run([A |-> A, st |-> st, ptr |-> [h \in 1..NH |-> 0], fails |-> fails], steps, 1), 1)
+  CheckOrder(Leftover(Run([A |-> A, st |-> st, ptr |-> [h \in 1..NH |-> 0], at |-> [h \in 1..NH |-> <<>>],
+                           si |-> 0, fails |-> fails], steps, 1), 1))
 
 LastVal(A, a, var) ==
   LET idx == {i \in DOMAIN A[a].binds : A[a].binds[i].var = var} IN
